@@ -26,10 +26,14 @@ Definition lgroup_of_c11 (c : Grouping.cog) : lgroup := (plets (cg_general c), m
 Definition part_of_observables (label : nat) (subobs : list pauli) (o : grouping_oracle) : res part :=
   res_map (part_of_collection label subobs) (collection subobs o).
 
-(* specification side: a (partition, data) pair whose partition is what ObservableCollection, as
-   modelled by C11, builds for some phase-free list of nobs sub-observables (ANY answer of the
-   group_commuting oracle for which the collection is built) *)
-Definition from_collection (nobs : nat) (pd : part * pdata) : Prop :=
+(* specification side: a partition that ObservableCollection, as modelled by C11, builds for a
+   phase-free list of nobs sub-observables, for an answer of the unique()/group_commuting oracle
+   that satisfies C11's grouping_contract (in particular: every observable is in some group, so no
+   lookup list is empty) *)
+Definition part_from_collection (nobs : nat) (p : part) : Prop :=
   exists label subobs o coll,
-    collection subobs o = Ok coll /\ (forall p, In p subobs -> pphase p = 0) /\
-    length subobs = nobs /\ fst pd = part_of_collection label subobs coll.
+    collection subobs o = Ok coll /\ grouping_contract subobs o = true /\
+    (forall x, In x subobs -> pphase x = 0) /\
+    length subobs = nobs /\ p = part_of_collection label subobs coll.
+
+Definition from_collection (nobs : nat) (pd : part * pdata) : Prop := part_from_collection nobs (fst pd).
